@@ -176,7 +176,7 @@ func (s *gspec) toCoq(info *hv.ValInfo) string {
 		}
 		return "(STuple " + hv.CoqList(parts) + ")"
 	case "attr":
-		return fmt.Sprintf("(SAttr %s %s %s)", hv.CoqStr(s.Name), coqType(tyOf(s.Type), info), hv.CoqBool(s.Req))
+		return fmt.Sprintf("(Dec.Spec.SAttr %s %s %s)", hv.CoqStr(s.Name), coqType(tyOf(s.Type), info), hv.CoqBool(s.Req))
 	case "literal":
 		return "(SLiteral " + hv.CoqVal(litOf(s.Lit), info) + ")"
 	case "expr":
